@@ -248,6 +248,6 @@ def stages(tier):
 
     q = tier == "quick"
     return [
-        HypStage("cuts+faults", trunc_case, examples=600 if q else 4000, shards=10 if q else 16),
+        HypStage("cuts+faults", trunc_case, examples=600 if q else 8000, shards=10 if q else 16),
         HypStage("dynamic-unions", dynunion_case, examples=300 if q else 3000, shards=2 if q else 4),
     ]
